@@ -120,6 +120,7 @@ func (t *Task) IsDaemon() bool { return t.daemon }
 
 // Sim is one simulated run.
 type Sim struct {
+	firingVC        []uint32 // while a timer callback runs: the clock of the task that armed it
 	timerSeq        int
 	heldAcrossYield bool
 	lastGoID        uint64
@@ -169,6 +170,7 @@ type timer struct {
 	at   int64
 	seq  int
 	fire func()
+	vc   []uint32 // what the arming task knew: arming a timer happens before its firing
 }
 
 // vcHeadroom is how many goroutines the code under test may start per run.
@@ -340,11 +342,22 @@ func Gosched() {
 // firing is ordered after the call that armed it only through the clock).
 func GoFromTimer(f func()) {
 	if s := Cur; s != nil && !s.aborted {
-		s.spawn(f, nil)
+		// the goroutine of an AfterFunc callback starts after the call that armed the timer
+		s.spawnVC(f, nil, s.firingVC)
 	}
 }
 
-func (s *Sim) spawn(f func(), parent *Task) {
+// FiringVC is, while a timer callback runs, a copy of the clock of the task that armed the timer.
+func (s *Sim) FiringVC() []uint32 {
+	if s.firingVC == nil {
+		return nil
+	}
+	return append([]uint32(nil), s.firingVC...)
+}
+
+func (s *Sim) spawn(f func(), parent *Task) { s.spawnVC(f, parent, nil) }
+
+func (s *Sim) spawnVC(f func(), parent *Task, init []uint32) {
 	// a finished goroutine's slot is reused (the simulator bounds how many goroutines of the
 	// code under test are alive at once, not how many it starts): the newcomer continues the
 	// old incarnation's clock component, which orders it after everything its predecessor
@@ -365,6 +378,8 @@ func (s *Sim) spawn(f func(), parent *Task) {
 		// the go statement happens before the goroutine's execution begins
 		copy(t.VC, parent.VC)
 		parent.VC[parent.ID]++
+	} else if init != nil {
+		copy(t.VC, init)
 	}
 	if slot >= 0 {
 		t.ID = slot
@@ -415,7 +430,14 @@ func (s *Sim) AddTimer(d int64, fire func()) {
 		d = 0
 	}
 	s.timerSeq++
-	s.timers = append(s.timers, timer{at: s.MonoNs + d, seq: s.timerSeq, fire: fire})
+	var vc []uint32
+	if s.cur != nil && !s.cur.done {
+		vc = append([]uint32(nil), s.cur.VC...)
+		s.cur.VC[s.cur.ID]++
+	} else if s.firingVC != nil {
+		vc = s.firingVC // re-armed from a timer callback (a ticker)
+	}
+	s.timers = append(s.timers, timer{at: s.MonoNs + d, seq: s.timerSeq, fire: fire, vc: vc})
 	// sift up
 	i := len(s.timers) - 1
 	for i > 0 {
@@ -459,7 +481,10 @@ func (s *Sim) fireTimers() {
 	for len(s.timers) > 0 && s.timers[0].at <= s.MonoNs {
 		t := s.popTimer()
 		s.Faults.Inc("timer_fired")
+		prev := s.firingVC
+		s.firingVC = t.vc
 		t.fire()
+		s.firingVC = prev
 	}
 }
 
@@ -717,6 +742,7 @@ func (s *Sim) BlockOn(w Waitable, obj int) {
 
 func (s *Sim) noteContention(me *Task) {
 	s.Probes.Inc("lock_contended")
+	s.Probes.Inc("lock_blocked")
 	s.contendedThisRun = true
 	blocked := 0
 	live := 0
